@@ -259,11 +259,12 @@ def judgeLine (b : Bound UInt64) (isOpen : Bool) (ps : List (Pt UInt64)) (mls : 
          else judge (normPiecesTol tol outq) false)
   | _, _, _ => "skip non-finite"
 
-/-- the implementation did not return within its time limit (outcome `hang`).  The label of known finding
-    C07-corner-rounding-nontermination is given only when the Float twin agrees: its inner loop runs out
-    of fuel (8 rounds; exact arithmetic needs at most 4 — theorem `line_total`) on the same input. -/
-def hangVerdict (twinStuck : Bool) : String :=
-  if twinStuck then "propfail nonterminating" else "propfail hang model-terminates"
+/-- the implementation did not return within its time limit (outcome `hang`, observed by the harness's
+    child-process watchdog).  Since clip.line clips an end point at most twice and then snaps it onto the
+    box (fix of finding C07-corner-rounding-nontermination) the loop is bounded whatever the arithmetic
+    does — theorem `line_total_any`; the Float twin never runs out of fuel — so a hang is a plain
+    violation, never a known class. -/
+def hangVerdict : String := "propfail hang"
 
 /-- `line <open> <box> <pts> => <mls> <idem> <unmod>` (or `=> hang`) -/
 def handleLine (inp out : Toks) : String :=
@@ -275,7 +276,7 @@ def handleLine (inp out : Toks) : String :=
   | none => "bad input"
   | some (isOpen, b, ps) =>
     if out == ["panic"] then "propfail panic" else
-    if out == ["hang"] then hangVerdict ((line (boundF b) isOpen (ptsF ps)).isNone) else
+    if out == ["hang"] then hangVerdict else
     match (do
       let (mls, o) ← parseMls out
       let (idem, o) ← nat o
@@ -312,7 +313,7 @@ def handleMls (inp out : Toks) : String :=
   | none => "bad input"
   | some (isOpen, b, members) =>
     if out == ["panic"] then "propfail panic" else
-    if out == ["hang"] then hangVerdict ((multiLineString (boundF b) isOpen (members.map ptsF)).isNone) else
+    if out == ["hang"] then hangVerdict else
     match (do
       let (res, o) ← ptss out
       let (unmod, o) ← nat o
